@@ -4,6 +4,7 @@ import (
 	"fmt"
 	"math"
 	"math/rand"
+	"strings"
 
 	"github.com/tidwall/geojson"
 	"github.com/tidwall/geojson/geometry"
@@ -194,6 +195,35 @@ func c11Judge(c *mon.Ctx, path string, root *Node, n *Node, o geojson.Object) {
 			c.Violation("valid", "Valid() differs from 'every position within [-180,180]x[-90,90]'", cs)
 		}
 	}
+	if n.Kind == "LineString" || n.Kind == "Polygon" {
+		c11Moved(c, path, root, n, o)
+	}
+}
+
+// c11Moved: after the source object has answered Rect/Center/Valid/Empty, a line string or polygon is translated by
+// the library (Base().Move) so that positions enter or leave the valid range, wrapped again, and judged like any other
+// object against the translated model (added after seeded change C11-p: a validity answer cached on first use and
+// carried over to the moved copy).
+func c11Moved(c *mon.Ctx, path string, root *Node, n *Node, o geojson.Object) {
+	if strings.HasSuffix(path, "/moved") {
+		return
+	}
+	k := len(n.Positions(false, nil)) + len(path)
+	dx := []float64{360, -360, 15.5, 0, -170.25}[k%5]
+	dy := []float64{0, 180, -7.25, -95}[(k/5)%4]
+	f := func(p geometry.Point) geometry.Point { return geometry.Point{X: p.X + dx, Y: p.Y + dy} }
+	var mo geojson.Object
+	switch v := o.(type) {
+	case *geojson.LineString:
+		mo = geojson.NewLineString(v.Base().Move(dx, dy))
+	case *geojson.Polygon:
+		mo = geojson.NewPolygon(v.Base().Move(dx, dy))
+	default:
+		return
+	}
+	mn := mapNode(n, f)
+	c.Count("moved_objects")
+	c11Judge(c, path+"/moved", mn, mn, mo)
 }
 
 // IsCollection2: kinds whose Valid() is derived from the union rectangle
